@@ -149,18 +149,21 @@ def winner(msg, spd, trk, alt):
         raw = (mb >> (56 - row.lsb)) & ((1 << row.nbits) - 1)
         return row.expected(st, sg, raw)
     h60, m60, i60, h50, v50 = fld("hdg60"), fld("mach60"), fld("ias60"), fld("trk50"), fld("gs50")
-    if None in (h60, m60, i60, h50, v50):
-        return None
+    if None in (h60, h50, v50) or (m60 is None and i60 is None):
+        return None          # undecidable: the property lets the decoder name both
     H = alt * I.FT
-    if H < -500 or H > 20000 or m60 <= 0 or i60 <= 0:
+    if H < -500 or H > 20000 or (m60 is not None and m60 <= 0) or (i60 is not None and i60 <= 0):
         return None
-    if abs(i60 - I.mach2cas(m60, H) / I.KTS) > 15:
+    if m60 is not None and i60 is not None and abs(i60 - I.mach2cas(m60, H) / I.KTS) > 15:
         return None
     ref = vxy(spd * I.KTS, trk)
     d50 = math.dist(vxy(v50 * I.KTS, h50), ref)
-    d6m = math.dist(vxy(I.mach2tas(m60, H), h60), ref)
-    d6i = math.dist(vxy(I.cas2tas(i60 * I.KTS, H), h60), ref)
-    lo60, hi60 = min(d6m, d6i), max(d6m, d6i)
+    d6 = []
+    if m60 is not None:
+        d6.append(math.dist(vxy(I.mach2tas(m60, H), h60), ref))
+    if i60 is not None:
+        d6.append(math.dist(vxy(I.cas2tas(i60 * I.KTS, H), h60), ref))
+    lo60, hi60 = min(d6), max(d6)
     if d50 < lo60 / 1.1 and lo60 - d50 > 5:
         return "BDS50"
     if hi60 < d50 / 1.1 and d50 - hi60 > 5:
@@ -329,6 +332,11 @@ def constructed_5060():
                     tas = I.mach2tas(mach, alt * I.FT) / I.KTS
                     out.append((mb, gs, trk, alt))
                     out.append((mb, tas, hdg, alt))
+                    # IAS not available in the 6,0 reading (status bit 13 clear, field zero) = track exactly 0 in the 5,0 reading
+                    mb2 = BR.bit(1) | BR.field(2, 1, sign) | BR.field(3, 9, rraw) | BR.bit(12) | BR.bit(24) | BR.field(25, 10, mraw)
+                    out.append((mb2, gs, 0.0, alt))
+                    out.append((mb2, gs + 15, 2.0, alt))
+                    out.append((mb2, tas, hdg, alt))
     return out
 
 
